@@ -377,8 +377,8 @@ def run(ck):
             unknown += 1
         ck.report(dict(mode=c[0], fault=c[1], file=(c[2] if c[2] is not None else b"").decode(errors="replace")[:20000], file_hex=(c[2] or b"")[:4000].hex() if c[1] in ("random_bytes", "xml_random_bytes") else None, where=str(c[3])),
                   oracle=key, key=kf, what=what)
-    fails = [f for f in fails if unknown]
-    if not fails:
+    pass
+    if not ck.violations:
         if not ok:
             ck.report(dict(log=ck.proof_res["log"][-3000:]), unchecked="Properties_C17.vo", what="proof obligations of C17 no longer check")
         if broken:
